@@ -194,3 +194,25 @@ Proof.
   - constructor; [now apply (Rep_HeapOK h t)|assumption].
   - cbn [map]. rewrite I2. f_equal. now apply abs_correct.
 Qed.
+
+(* ---- the commuting square, with the executable abstraction on worlds ---- *)
+Definition abs_world (hw : hworld) : option world :=
+  option_map (fun ts => W ts (hnext hw)) (mapM abs_tstate (htrees hw)).
+
+Lemma abs_world_correct hw w : WFw w -> RepW hw w -> abs_world hw = Some w.
+Proof.
+  intros [Wt _ _ _] [E F]. unfold abs_world.
+  assert (M : mapM abs_tstate (htrees hw) = Some (trees w)).
+  { induction F as [|h t hs ts Rht F IH]; [reflexivity|]. inversion Wt as [|x xs Wx Wxs]; subst. cbn [mapM].
+    rewrite (proj2 (abs_correct h t Wx Rht)), (IH Wxs). reflexivity. }
+  rewrite M, E. cbn. now destruct w.
+Qed.
+
+Theorem heap_commutes hw w o : covered_heap o = true -> WFw w -> RepW hw w ->
+  abs_world hw = Some w /\
+  fst (h_step hw o) = fst (step w o) /\
+  abs_world (snd (h_step hw o)) = Some (snd (step w o)).
+Proof.
+  intros C W RW. destruct (sim_step hw w o C W RW) as (E1 & E2).
+  refine (conj (abs_world_correct hw w W RW) (conj E1 _)). apply abs_world_correct; [now apply WFw_step|exact E2].
+Qed.
